@@ -70,5 +70,24 @@ namespace tl
     template <class T> using const1 = typename const1_impl<T>::type;
 
     template <class X, class Y> using same = std::is_same<X, Y>;
+
+    // round 3: vocabulary of the second routes (no xtl inside): "is the type V" as a predicate template for count_if /
+    // find_if, concatenation of two lists (split must concatenate back), the n-th element through std::tuple_element
+    template <class T> struct eq_A : std::is_same<T, A> {};
+    template <class T> struct eq_B : std::is_same<T, B> {};
+    template <class T> struct eq_C : std::is_same<T, C> {};
+    template <class T> struct eq_D : std::is_same<T, D> {};
+    template <class L1, class L2> struct concat_impl;
+    template <template <class...> class L1, class... T, template <class...> class L2, class... U>
+    struct concat_impl<L1<T...>, L2<U...>> { using type = L1<T..., U...>; };
+    template <class L1, class L2> using concat = typename concat_impl<L1, L2>::type;
+    template <std::size_t I, class L> struct nth_impl;
+    template <std::size_t I, template <class...> class L, class T0, class... T>
+    struct nth_impl<I, L<T0, T...>> : nth_impl<I - 1, L<T...>> {};
+    template <template <class...> class L, class T0, class... T>
+    struct nth_impl<0, L<T0, T...>> { using type = T0; };
+    template <std::size_t I, class L> using nth = typename nth_impl<I, L>::type;
+    template <class L> struct len_impl;
+    template <template <class...> class L, class... T> struct len_impl<L<T...>> : std::integral_constant<std::size_t, sizeof...(T)> {};
 }
 #endif
